@@ -98,6 +98,16 @@ func (mpf Transform[T, O]) ProcessParallel(
 			// for each split, run a mapWorker
 
 			mf.mapPullProcess(output.Send().Write, opts).
+				WithErrorFilter(func(err error) error {
+					// io.EOF means that this worker may not
+					// continue (or that the output is gone):
+					// cancel the group, so that the other
+					// workers stop too. ReadAll reports
+					// io.EOF as nil, so the observer below
+					// does not see it.
+					ft.WhenCall(errors.Is(err, io.EOF), wcancel)
+					return err
+				}).
 				ReadAll(splits[idx].Producer()).
 				Operation(func(err error) {
 					ft.WhenCall(ers.Is(err, io.EOF, ers.ErrCurrentOpAbort), wcancel)
